@@ -19,8 +19,8 @@ use domain::base::iana::{
 use domain::base::message::Message;
 use domain::base::message_builder::{HashCompressor, MessageBuilder, StaticCompressor, TreeCompressor};
 use domain::base::name::{Name, ParsedName, ToName};
-use domain::base::rdata::{ComposeRecordData, ParseAnyRecordData, RecordData, UnknownRecordData};
-use domain::base::wire::{Composer, ParseError};
+use domain::base::rdata::{ComposeRecordData, ParseAnyRecordData, UnknownRecordData};
+use domain::base::wire::ParseError;
 use domain::base::{Record, Serial, Ttl};
 use domain::rdata::dnssec::Timestamp;
 use domain::rdata::tsig::Time48;
@@ -47,6 +47,19 @@ const REGULAR: [(u16, &str); 32] = [
 ];
 /// RFC 4034 6.2 as amended by RFC 6840 5.1, restricted to types with names
 const RFC_LOWER: [u16; 24] = [2, 3, 4, 5, 6, 7, 8, 9, 12, 13, 14, 15, 17, 18, 21, 24, 26, 30, 35, 36, 33, 39, 38, 46];
+
+/// Oracle verdict; at most 3 failures per class are written out (the output
+/// file is capped and one class must not crowd out the others).
+fn chk(out: &mut Out, ok: bool, class: &str, case: &str, detail: &str) {
+    use std::cell::RefCell;
+    use std::collections::HashMap;
+    thread_local! { static SEEN: RefCell<HashMap<String, u32>> = RefCell::new(HashMap::new()); }
+    if !ok {
+        let n = SEEN.with(|s| { let mut s = s.borrow_mut(); let e = s.entry(class.to_string()).or_insert(0); *e += 1; *e });
+        if n > 3 { out.count(&format!("more_failures_{}", class)); return; }
+    }
+    out.check(ok, class, case, detail);
+}
 
 fn tname(t: u16) -> String {
     for (c, n) in REGULAR.iter() { if *c == t { return n.to_string(); } }
@@ -193,7 +206,7 @@ fn explode<O: AsRef<[u8]>, N: ToName>(d: &AllRecordData<O, N>) -> Option<Vec<Val
         AllRecordData::Zonemd(x) => vec![num(x.serial().into_int()), num(x.scheme().to_int()), num(x.algorithm().to_int()), bv(x.digest())],
         AllRecordData::Tsig(x) => vec![nv(x.algorithm()), Val::Num(u64::from(x.time_signed())), num(x.fudge()), bv(x.mac()),
             num(x.original_id()), num(x.error().to_int()), bv(x.other())],
-        AllRecordData::Caa(x) => vec![num(x.flags().bits()), Val::Bytes(x.tag().as_ref().to_vec()), bv(x.value())],
+        AllRecordData::Caa(x) => vec![num(x.flags().bits()), Val::Bytes({ let mut w: Vec<u8> = Vec::new(); x.tag().compose(&mut w).unwrap(); w[1..].to_vec() }), bv(x.value())],
         AllRecordData::Unknown(x) => vec![bv(x.data())],
         _ => return None,
     })
@@ -364,6 +377,9 @@ fn parse_at<'a>(t: u16, msg: &'a [u8], pos: usize, lim: usize)
 
 fn lower_names(t: u16, v: &[Val]) -> Vec<Val> {
     if !RFC_LOWER.contains(&t) { return v.to_vec(); }
+    fold_names(v)
+}
+fn fold_names(v: &[Val]) -> Vec<Val> {
     v.iter().map(|x| match x {
         Val::Name(w) => {
             // lower-case label octets only (length octets are <= 63 and unaffected by the ASCII map anyway)
@@ -372,6 +388,15 @@ fn lower_names(t: u16, v: &[Val]) -> Vec<Val> {
             Val::Name(o)
         }
         y => y.clone() }).collect()
+}
+
+/// class word for a failed `==` between two values that are field-wise equal
+fn eq_class<O, N>(d: &AllRecordData<O, N>, tn: &str) -> String {
+    match d {
+        AllRecordData::Unknown(_) => "allrecorddata_eq_unknown".to_string(),
+        AllRecordData::Opt(_) => "allrecorddata_eq_opt".to_string(),
+        _ => format!("roundtrip_{}", tn),
+    }
 }
 
 fn compose_case(out: &mut Out, r: &mut Rng, t: u16, v: &[Val], kind: &str) {
@@ -383,7 +408,7 @@ fn compose_case(out: &mut Out, r: &mut Rng, t: u16, v: &[Val], kind: &str) {
     let built = match catch_mut(|| build(t, v)) {
         Ok(Ok(b)) => b,
         Ok(Err(())) => { out.case(&case, "Reject", false, kind); return; }
-        Err(e) => { out.case(&case, "Panic", true, kind); out.check(false, &format!("ctor_panic_{}", tn), &case, &e); return; }
+        Err(e) => { out.case(&case, "Panic", true, kind); chk(out, false, &format!("ctor_panic_{}", tn), &case, &e); return; }
     };
     let wire = compose_plain(&built);
     let rl = catch_mut(|| built.rdlen(false));
@@ -391,7 +416,7 @@ fn compose_case(out: &mut Out, r: &mut Rng, t: u16, v: &[Val], kind: &str) {
     let canon = compose_canon(&built);
     let (wire, canon) = match (wire, canon) {
         (Ok(w), Ok(c)) => (w, c),
-        _ => { out.case(&case, "Panic", true, kind); out.check(false, &format!("compose_panic_{}", tn), &case, "compose panicked"); return; }
+        _ => { out.case(&case, "Panic", true, kind); chk(out, false, &format!("compose_panic_{}", tn), &case, "compose panicked"); return; }
     };
     let obs = format!("{} {} {} {}", hex(&wire), show_rdlen(&rl), show_rdlen(&rlc), hex(&canon));
     out.case(&case, &obs, true, kind);
@@ -399,36 +424,37 @@ fn compose_case(out: &mut Out, r: &mut Rng, t: u16, v: &[Val], kind: &str) {
     // ---- property oracle
     if total > 65535 {
         // a value that cannot be RDATA was accepted by the constructor
-        out.check(false, &format!("ctor_long_{}", tn), &format!("compose {} (total {} octets)", t, total),
+        chk(out, false, &format!("ctor_long_{}", tn), &format!("compose {} (total {} octets)", t, total),
                   &format!("constructor accepted {} octets of RDATA; rdlen -> {}", wire.len(), show_rdlen(&rl)));
         return;
     }
-    out.check(rl == Ok(Some(wire.len() as u16)), &format!("rdlen_{}", tn), &case, &format!("rdlen {} but {} octets written", show_rdlen(&rl), wire.len()));
-    match &rlc { Ok(Some(n)) => out.check(*n as usize == wire.len(), &format!("rdlen_{}", tn), &case, "rdlen(true) differs from octets written"),
-                 Ok(None) => {}, Err(_) => out.check(false, &format!("rdlen_{}", tn), &case, "rdlen(true) panicked") }
+    chk(out, rl == Ok(Some(wire.len() as u16)), &format!("rdlen_{}", tn), &case, &format!("rdlen {} but {} octets written", show_rdlen(&rl), wire.len()));
+    match &rlc { Ok(Some(n)) => chk(out, *n as usize == wire.len(), &format!("rdlen_{}", tn), &case, "rdlen(true) differs from octets written"),
+                 Ok(None) => {}, Err(_) => chk(out, false, &format!("rdlen_{}", tn), &case, "rdlen(true) panicked") }
     // parse back
+    let short_rest = fs.iter().zip(v).any(|(f, x)| matches!((f, x), (F::Rest(m), Val::Bytes(b)) if b.len() < *m));
     match parse_at(t, &wire, 0, wire.len()) {
         Ok(Ok(p)) => {
             let ev = explode(&p);
-            out.check(ev.as_deref() == Some(v), &format!("roundtrip_{}", tn), &case, &format!("parsed back {}", ev.map(|e| toks(&e)).unwrap_or_default()));
-            out.check(p == built, &format!("roundtrip_{}", tn), &case, "parsed value != built value (PartialEq)");
+            chk(out, ev.as_deref() == Some(v), &format!("roundtrip_{}", tn), &case, &format!("parsed back {}", ev.map(|e| toks(&e)).unwrap_or_default()));
+            chk(out, p == built, &eq_class(&built, &tn), &case, "parsed value != built value (PartialEq)");
+            chk(out, built == built, &eq_class(&built, &tn), &case, "value != itself (PartialEq)");
         }
         Ok(Err(e)) => {
-            let short_rest = fs.iter().zip(v).any(|(f, x)| matches!((f, x), (F::Rest(m), Val::Bytes(b)) if b.len() < *m));
             let cls = if short_rest { format!("ctor_reparse_{}", tn) } else { format!("roundtrip_{}", tn) };
-            out.check(false, &cls, &case, &format!("composed RDATA does not parse: {}", perr(&e)));
+            chk(out, false, &cls, &case, &format!("composed RDATA does not parse: {}", perr(&e)));
         }
-        Err(e) => out.check(false, &format!("roundtrip_{}", tn), &case, &format!("parse panicked: {}", e)),
+        Err(e) => chk(out, false, &format!("roundtrip_{}", tn), &case, &format!("parse panicked: {}", e)),
     }
     // canonical form: wire form of the value with the RFC-listed names lower-cased
     let lv = lower_names(t, v);
     let expect = match build(t, &lv) { Ok(b) => compose_plain(&b).unwrap_or_default(), Err(()) => vec![] };
-    out.check(canon == expect, &format!("canonical_{}", tn), &case, &format!("canonical {} expected {}", hex(&canon), hex(&expect)));
+    chk(out, canon == expect, &format!("canonical_{}", tn), &case, &format!("canonical {} expected {}", hex(&canon), hex(&expect)));
     // through a message with a compressor
-    if total < 60000 { message_path(out, r, t, v, &built, &case); }
+    if total < 60000 && !short_rest { message_path(out, r, t, Some(v), &built, &case); }
 }
 
-fn message_path(out: &mut Out, r: &mut Rng, t: u16, v: &[Val], built: &Built, case: &str) {
+fn message_path(out: &mut Out, r: &mut Rng, t: u16, v: Option<&[Val]>, built: &Built, case: &str) {
     let tn = tname(t);
     let owner: DN = Name::from_octets(gen_name(r)).unwrap();
     let which = r.below(4);
@@ -452,9 +478,10 @@ fn message_path(out: &mut Out, r: &mut Rng, t: u16, v: &[Val], built: &Built, ca
     let bytes = match res {
         Ok(Ok(b)) => b,
         Ok(Err(_)) => return,   // did not fit / push refused: nothing to check
-        Err(e) => { out.check(false, &format!("compose_panic_{}", tn), case, &format!("message build panicked: {}", e)); return; }
+        Err(e) => { chk(out, false, &format!("compose_panic_{}", tn), case, &format!("message build panicked: {}", e)); return; }
     };
     let cls_r = format!("roundtrip_{}", tn);
+    let mut eq_unknown = false;
     let r2 = catch_mut(|| -> Result<(), String> {
         let msg = Message::from_octets(&bytes[..]).map_err(|_| "short message".to_string())?;
         let ans = msg.answer().map_err(|e| format!("answer: {}", e))?;
@@ -462,13 +489,21 @@ fn message_path(out: &mut Out, r: &mut Rng, t: u16, v: &[Val], built: &Built, ca
         for rec in ans {
             let rec = rec.map_err(|e| format!("record: {}", e))?;
             let rr: Record<_, AllRecordData<_, ParsedName<_>>> = rec.into_any_record().map_err(|e| format!("rdata: {}", e))?;
+            // name compression is case-insensitive: a compressed name takes the spelling of
+            // the earlier occurrence, so names are compared up to ASCII case here
             let ev = explode(rr.data());
-            if ev.as_deref() != Some(v) { return Err(format!("record {} parsed back {}", n, ev.map(|e| toks(&e)).unwrap_or_default())); }
-            if rr.data() != built { return Err("parsed value != built value (PartialEq)".into()); }
+            if v.is_some() && ev.as_ref().map(|e| fold_names(e)) != v.map(fold_names) { return Err(format!("record {} parsed back {}", n, ev.map(|e| toks(&e)).unwrap_or_default())); }
+            if rr.data() != built {
+                if matches!(built, AllRecordData::Unknown(_) | AllRecordData::Opt(_)) { eq_unknown = true; } else { return Err("parsed value != built value (PartialEq)".into()); }
+            }
             // accepted (possibly compressed) RDATA re-composes to octets that parse to an equal value
             let again = compose_plain(rr.data()).map_err(|e| format!("recompose panicked: {}", e))?;
             match parse_at(t, &again, 0, again.len()) {
-                Ok(Ok(p)) => if explode(&p).as_deref() != Some(v) { return Err("recomposed RDATA parses to a different value".into()); },
+                Ok(Ok(p)) => {
+                    if explode(&p) != ev { return Err("recomposed RDATA parses to a different value".into()); }
+                    let again2 = compose_plain(&p).map_err(|e| format!("recompose panicked: {}", e))?;
+                    if again2 != again { return Err("recomposed RDATA is not a fixpoint".into()); }
+                }
                 _ => return Err("recomposed RDATA does not parse".into()),
             }
             let rl = rr.data().rdlen(false);
@@ -478,9 +513,10 @@ fn message_path(out: &mut Out, r: &mut Rng, t: u16, v: &[Val], built: &Built, ca
         if n != 2 { return Err(format!("{} records", n)); }
         Ok(())
     });
-    match r2 { Ok(Ok(())) => out.check(true, &cls_r, case, ""),
-               Ok(Err(e)) => out.check(false, &cls_r, &format!("{} via message (target {})", case, which), &e),
-               Err(e) => out.check(false, &cls_r, &format!("{} via message (target {})", case, which), &format!("panic: {}", e)) }
+    if eq_unknown { chk(out, false, &eq_class(built, &tn), &format!("{} via message", case), "parsed value != built value (PartialEq)"); }
+    match r2 { Ok(Ok(())) => chk(out, true, &cls_r, case, ""),
+               Ok(Err(e)) => chk(out, false, &cls_r, &format!("{} via message (target {})", case, which), &e),
+               Err(e) => chk(out, false, &cls_r, &format!("{} via message (target {})", case, which), &format!("panic: {}", e)) }
     // RDLENGTH written by compose_len_rdata == octets between the records
     let r3 = catch_mut(|| -> Result<(), String> {
         let msg = Message::from_octets(&bytes[..]).map_err(|_| "short".to_string())?;
@@ -498,9 +534,9 @@ fn message_path(out: &mut Out, r: &mut Rng, t: u16, v: &[Val], built: &Built, ca
         if p.remaining() != 0 { return Err(format!("{} octets after the last record: RDLENGTH too small", p.remaining())); }
         Ok(())
     });
-    match r3 { Ok(Ok(())) => out.check(true, &format!("rdlen_{}", tn), case, ""),
-               Ok(Err(e)) => out.check(false, &format!("rdlen_{}", tn), &format!("{} via message (target {})", case, which), &e),
-               Err(e) => out.check(false, &format!("rdlen_{}", tn), case, &format!("panic: {}", e)) }
+    match r3 { Ok(Ok(())) => chk(out, true, &format!("rdlen_{}", tn), case, ""),
+               Ok(Err(e)) => chk(out, false, &format!("rdlen_{}", tn), &format!("{} via message (target {})", case, which), &e),
+               Err(e) => chk(out, false, &format!("rdlen_{}", tn), case, &format!("panic: {}", e)) }
 }
 
 fn parse_case(out: &mut Out, t: u16, msg: &[u8], pos: usize, lim: usize, kind: &str) {
@@ -515,21 +551,23 @@ fn parse_case(out: &mut Out, t: u16, msg: &[u8], pos: usize, lim: usize, kind: &
     };
     out.case(&case, &obs, nontrivial, kind);
     match res {
-        Err(e) => out.check(false, &format!("parse_panic_{}", tn), &case, &e),
-        Ok(Err(_)) => out.check(true, &format!("recompose_{}", tn), &case, ""),
+        Err(e) => chk(out, false, &format!("parse_panic_{}", tn), &case, &e),
+        Ok(Err(_)) => chk(out, true, &format!("recompose_{}", tn), &case, ""),
         Ok(Ok(d)) => {
             let v = explode(&d);
             let again = compose_plain(&d);
             match again {
-                Err(e) => out.check(false, &format!("recompose_{}", tn), &case, &format!("compose of accepted value panicked: {}", e)),
+                Err(e) => chk(out, false, &format!("recompose_{}", tn), &case, &format!("compose of accepted value panicked: {}", e)),
                 Ok(w) => {
-                    if w.len() > 65535 { out.check(true, &format!("recompose_{}", tn), &case, ""); return; }
+                    if w.len() > 65535 { chk(out, true, &format!("recompose_{}", tn), &case, ""); return; }
                     match parse_at(t, &w, 0, w.len()) {
-                        Ok(Ok(p)) => { out.check(explode(&p) == v && p == d, &format!("recompose_{}", tn), &case, "re-composed octets parse to a different value");
+                        Ok(Ok(p)) => { chk(out, explode(&p) == v, &format!("recompose_{}", tn), &case, "re-composed octets parse to a different value");
+                                       let cls = match &d { AllRecordData::Unknown(_) | AllRecordData::Opt(_) => eq_class(&d, &tn), _ => format!("recompose_{}", tn) };
+                                       chk(out, p == d, &cls, &case, "re-parsed value != accepted value (PartialEq)");
                                        let rl = catch_mut(|| d.rdlen(false));
-                                       out.check(rl == Ok(Some(w.len() as u16)), &format!("rdlen_{}", tn), &case, &format!("rdlen {} of accepted value but {} octets written", show_rdlen(&rl), w.len())); }
-                        Ok(Err(e)) => out.check(false, &format!("recompose_{}", tn), &case, &format!("re-composed octets do not parse: {}", perr(&e))),
-                        Err(e) => out.check(false, &format!("recompose_{}", tn), &case, &format!("panic: {}", e)),
+                                       chk(out, rl == Ok(Some(w.len() as u16)), &format!("rdlen_{}", tn), &case, &format!("rdlen {} of accepted value but {} octets written", show_rdlen(&rl), w.len())); }
+                        Ok(Err(e)) => chk(out, false, &format!("recompose_{}", tn), &case, &format!("re-composed octets do not parse: {}", perr(&e))),
+                        Err(e) => chk(out, false, &format!("recompose_{}", tn), &case, &format!("panic: {}", e)),
                     }
                 }
             }
@@ -537,18 +575,37 @@ fn parse_case(out: &mut Out, t: u16, msg: &[u8], pos: usize, lim: usize, kind: &
     }
 }
 
+fn equnk_case(out: &mut Out, t1: u16, b1: &[u8], t2: u16, b2: &[u8]) {
+    let case = format!("equnk {} {} {} {}", t1, hex(b1), t2, hex(b2));
+    out.begin(&case);
+    let u1 = UnknownRecordData::from_octets(Rtype::from_int(t1), b1.to_vec()).unwrap();
+    let u2 = UnknownRecordData::from_octets(Rtype::from_int(t2), b2.to_vec()).unwrap();
+    let a1: Built = AllRecordData::Unknown(u1.clone());
+    let a2: Built = AllRecordData::Unknown(u2.clone());
+    let z1: ZoneRecordData<Vec<u8>, DN> = ZoneRecordData::Unknown(u1.clone());
+    let z2: ZoneRecordData<Vec<u8>, DN> = ZoneRecordData::Unknown(u2.clone());
+    let (ea, ez) = (a1 == a2, z1 == z2);
+    out.case(&case, &format!("all={} zone={}", ea, ez), true, "equnk");
+    let same = t1 == t2 && b1 == b2;
+    chk(out, u1.eq(&u2) == same, "unknown_eq", &case, "UnknownRecordData ==");
+    chk(out, ez == same, "zonerecorddata_eq_unknown", &case, "ZoneRecordData::Unknown ==");
+    chk(out, ea == same, "allrecorddata_eq_unknown", &case, &format!("AllRecordData::Unknown == gives {} for {} data", ea, if same { "identical" } else { "different" }));
+}
+
 /// parse cases derived from one value
 fn parse_cases_for(out: &mut Out, r: &mut Rng, t: u16, v: &[Val]) {
     let fs = fields(t);
     let compress = r.chance(2, 3);
-    let mut prefix = r.bytes(r.below(6) as usize);
+    let k0 = r.below(6) as usize;
+    let mut prefix = r.bytes(k0);
     let rd = encode(&fs, v, &mut prefix, r, compress);
     if rd.len() > 5000 { return; }
     let mut msg = prefix.clone();
     let pos = msg.len();
     msg.extend_from_slice(&rd);
     let lim = msg.len();
-    let tail = r.bytes(r.below(4) as usize);
+    let k1 = r.below(4) as usize;
+    let tail = r.bytes(k1);
     msg.extend_from_slice(&tail);
     parse_case(out, t, &msg, pos, lim, if compress { "parse_compressed" } else { "parse_plain" });
     match r.below(8) {
@@ -575,8 +632,124 @@ fn boundary_cases(out: &mut Out, r: &mut Rng, t: u16) {
 
 // ---------------------------------------------------------------- oracle-only types
 mod irregular {
+    //! Types without a schema row: NSEC, NSEC3, IPSECKEY, SVCB, HTTPS, OPT.  Oracle only.
     use super::*;
-    pub fn run(_out: &mut Out, _r: &mut Rng, _n: u64) {}
+    use domain::base::iana::{IpseckeyAlgorithm, SvcParamKey};
+    use domain::base::opt::Opt;
+    use domain::rdata::dnssec::RtypeBitmap;
+    use domain::rdata::ipseckey::IpseckeyGateway;
+    use domain::rdata::nsec3::{Nsec3Salt, OwnerHash};
+    use domain::rdata::svcb::{SvcParams, UnknownSvcParam};
+
+    fn bitmap(r: &mut Rng) -> (RtypeBitmap<Vec<u8>>, String) {
+        let mut b = RtypeBitmap::<Vec<u8>>::builder();
+        let n = match r.below(6) { 0 => 0, 1 => 1, 2 => 60, _ => r.below(8) };
+        let mut ts = vec![];
+        for _ in 0..n {
+            let t = match r.below(6) { 0 => *r.pick(&[0u16, 1, 7, 8, 255, 256, 257, 0x7fff, 0x8000, 0xff00, 0xffff]), 1 => r.u16(), _ => r.below(70) as u16 };
+            b.add(Rtype::from_int(t)).unwrap(); ts.push(t.to_string());
+        }
+        (b.finalize(), ts.join(","))
+    }
+    fn sized(r: &mut Rng, big: usize) -> Vec<u8> { let n = match r.below(6) { 0 => 0, 1 => big, 2 => 1, _ => r.below(40) as usize }; r.bytes(n.min(big)) }
+
+    fn gen(r: &mut Rng, t: u16) -> Option<(Built, String)> {
+        Some(match t {
+            47 => { let n = gen_name(r); let (bm, d) = bitmap(r);
+                    (AllRecordData::Nsec(Nsec::new(Name::from_octets(n.clone()).unwrap(), bm)), format!("{} types={}", hex(&n), d)) }
+            50 => { let salt = sized(r, 255); let oh = sized(r, 255); let (bm, d) = bitmap(r);
+                    let (a, f, i) = (r.u8(), r.u8(), r.u16());
+                    (AllRecordData::Nsec3(Nsec3::new(Nsec3HashAlgorithm::from_int(a), f, i, Nsec3Salt::from_octets(salt.clone()).unwrap(),
+                        OwnerHash::from_octets(oh.clone()).unwrap(), bm)), format!("{} {} {} {} {} types={}", a, f, i, hex(&salt), hex(&oh), d)) }
+            45 => { let alg = r.below(4) as u8; let prec = r.u8();
+                    let klen = if alg == 0 && r.chance(1, 2) { 0 } else { 1 + r.below(40) as usize };
+                    let key = r.bytes(klen);
+                    let (gw, d): (IpseckeyGateway<DN>, String) = match r.below(4) {
+                        0 => (IpseckeyGateway::None, "none".into()),
+                        1 => { let b = r.bytes(4); (IpseckeyGateway::Ipv4(A::new(Ipv4Addr::new(b[0], b[1], b[2], b[3]))), format!("v4:{}", hex(&b))) }
+                        2 => { let b = r.bytes(16); let mut a = [0u8; 16]; a.copy_from_slice(&b); (IpseckeyGateway::Ipv6(Aaaa::new(Ipv6Addr::from(a))), format!("v6:{}", hex(&b))) }
+                        _ => { let n = gen_name(r); (IpseckeyGateway::Name(Name::from_octets(n.clone()).unwrap()), format!("name:{}", hex(&n))) }
+                    };
+                    (AllRecordData::Ipseckey(Ipseckey::new(prec, IpseckeyAlgorithm::from_int(alg), gw, key.clone())), format!("{} {} {} {}", prec, alg, d, hex(&key))) }
+            64 | 65 => {
+                let prio = match r.below(3) { 0 => 0, 1 => 1, _ => r.u16() };
+                let n = gen_name(r);
+                let mut keys: Vec<u16> = vec![];
+                let cnt = match r.below(5) { 0 => 0, 1 => 12, _ => r.below(4) };
+                for _ in 0..cnt { let k = match r.below(3) { 0 => r.below(9) as u16, 1 => *r.pick(&[7u16, 8, 65280, 65534, 65535, 100]), _ => r.u16() }; if !keys.contains(&k) && k != 0 { keys.push(k); } }
+                let vals: Vec<(u16, Vec<u8>)> = keys.iter().map(|k| (*k, sized(r, 300))).collect();
+                let params = SvcParams::<Vec<u8>>::from_values(|b| {
+                    for (k, v) in &vals { b.push(&UnknownSvcParam::new(SvcParamKey::from_int(*k), v.clone()).unwrap())?; }
+                    Ok(())
+                }).ok()?;
+                let d = format!("{} {} {}", prio, hex(&n), vals.iter().map(|(k, v)| format!("{}={}", k, hex(v))).collect::<Vec<_>>().join(","));
+                let name: DN = Name::from_octets(n).unwrap();
+                if t == 64 { (AllRecordData::Svcb(Svcb::new(prio, name, params).ok()?), d) } else { (AllRecordData::Https(Https::new(prio, name, params).ok()?), d) }
+            }
+            41 => {
+                let mut raw = vec![];
+                let cnt = match r.below(4) { 0 => 0, _ => r.below(5) };
+                let mut d = vec![];
+                for _ in 0..cnt {
+                    let code = match r.below(3) { 0 => r.below(20) as u16, 1 => *r.pick(&[3u16, 8, 10, 11, 12, 15, 65001, 65535]), _ => r.u16() };
+                    let data = sized(r, 600);
+                    raw.extend_from_slice(&code.to_be_bytes()); raw.extend_from_slice(&(data.len() as u16).to_be_bytes()); raw.extend_from_slice(&data);
+                    d.push(format!("{}={}", code, hex(&data)));
+                }
+                (AllRecordData::Opt(Opt::from_octets(raw).ok()?), d.join(","))
+            }
+            _ => return None,
+        })
+    }
+
+    pub fn generic_case(out: &mut Out, r: &mut Rng, t: u16, built: &Built, desc: &str, kind: &str) {
+        let tn = tname(t);
+        let case = format!("oracle {} {}", tn, desc);
+        out.begin(&case);
+        out.oracle_case(&case, true, kind);
+        let (wire, canon) = match (compose_plain(built), compose_canon(built)) {
+            (Ok(w), Ok(c)) => (w, c),
+            _ => { chk(out, false, &format!("compose_panic_{}", tn), &case, "compose panicked"); return; }
+        };
+        if wire.len() > 65535 { chk(out, false, &format!("ctor_long_{}", tn), &case, "constructor accepted more than 65535 octets"); return; }
+        let rl = catch_mut(|| built.rdlen(false));
+        chk(out, rl == Ok(Some(wire.len() as u16)), &format!("rdlen_{}", tn), &case, &format!("rdlen {} but {} octets written", show_rdlen(&rl), wire.len()));
+        let rlc = catch_mut(|| built.rdlen(true));
+        chk(out, rlc == Ok(Some(wire.len() as u16)), &format!("rdlen_{}", tn), &case, "rdlen(true) differs");
+        // none of these types is in the RFC 4034 6.2 / RFC 6840 5.1 list
+        chk(out, canon == wire, &format!("canonical_{}", tn), &case, &format!("canonical {} differs from wire {}", hex(&canon), hex(&wire)));
+        match parse_at(t, &wire, 0, wire.len()) {
+            Ok(Ok(p)) => {
+                chk(out, p == *built, &eq_class(built, &tn), &case, "parsed value != built value (PartialEq)");
+                chk(out, *built == *built, &eq_class(built, &tn), &case, "value != itself (PartialEq)");
+                let again = compose_plain(&p).unwrap_or_default();
+                chk(out, again == wire, &format!("recompose_{}", tn), &case, &format!("parsed value composes to {} instead of {}", hex(&again), hex(&wire)));
+                let rl2 = catch_mut(|| p.rdlen(false));
+                chk(out, rl2 == Ok(Some(wire.len() as u16)), &format!("rdlen_{}", tn), &case, "rdlen of parsed value");
+            }
+            Ok(Err(e)) => chk(out, false, &format!("roundtrip_{}", tn), &case, &format!("composed RDATA does not parse: {} ({})", perr(&e), hex(&wire))),
+            Err(e) => chk(out, false, &format!("roundtrip_{}", tn), &case, &format!("parse panicked: {}", e)),
+        }
+        if wire.len() < 60000 { message_path(out, r, t, None, built, &case); }
+    }
+
+    pub fn run(out: &mut Out, r: &mut Rng, n: u64) {
+        for &t in &[47u16, 50, 45, 64, 65, 41] {
+            for _ in 0..n {
+                if let Some((b, d)) = gen(r, t) { generic_case(out, r, t, &b, &d, &format!("oracle_{}", tname(t))); }
+            }
+        }
+        // a key-less IPSECKEY with a key algorithm: accepted by new(), refused by parse
+        let b: Built = AllRecordData::Ipseckey(Ipseckey::new(10, IpseckeyAlgorithm::from_int(2), IpseckeyGateway::None, vec![]));
+        let case = "oracle IPSECKEY 10 2 none -";
+        out.oracle_case(case, true, "corpus");
+        let w = compose_plain(&b).unwrap_or_default();
+        match parse_at(45, &w, 0, w.len()) {
+            Ok(Ok(_)) => chk(out, true, "ctor_reparse_IPSECKEY", case, ""),
+            Ok(Err(e)) => chk(out, false, "ctor_reparse_IPSECKEY", case, &format!("composed RDATA {} does not parse: {}", hex(&w), perr(&e))),
+            Err(e) => chk(out, false, "parse_panic_IPSECKEY", case, &e),
+        }
+    }
 }
 
 fn main() {
@@ -593,6 +766,23 @@ fn main() {
     parse_case(&mut out, 16, &[], 0, 0, "corpus");
     parse_case(&mut out, 5, &[0xc0, 0x00], 0, 2, "corpus");
     parse_case(&mut out, 65280, &[1, 2, 3], 0, 3, "corpus");
+    // buffers beyond 65535 octets (direct use of a Parser): the leading LongRecordData checks
+    for &t in &[48u16, 43, 59, 60, 10, 16, 46, 250, 61, 52] {
+        for &l in &[65535usize, 65536, 65539, 65540] {
+            let buf = vec![0u8; l + 1];
+            parse_case(&mut out, t, &buf, 1, l + 1, "parse_huge");
+        }
+    }
+
+    // == of opaque data inside the record data enums
+    for i in 0..(40 * a.scale) {
+        let t1 = *r.pick(&[65280u16, 99, 11, 255, 4711]);
+        let k = r.below(12) as usize;
+        let b1 = r.bytes(k);
+        let (t2, b2) = match i % 4 { 0 => (t1, b1.clone()), 1 => (t1.wrapping_add(1), b1.clone()),
+                                     2 => { let mut b = b1.clone(); if b.is_empty() { b.push(0) } else { b[0] ^= 1 }; (t1, b) }, _ => (t1, b1.clone()) };
+        equnk_case(&mut out, t1, &b1, t2, &b2);
+    }
 
     let mut types: Vec<u16> = REGULAR.iter().map(|x| x.0).collect();
     types.extend_from_slice(&[65280, 99, 11, 255]);   // unknown types
